@@ -4,8 +4,9 @@ import gen_versionutils
 import pep440
 
 ID = 'C17'
-GEN = [('Gen/Versionutils.v', gen_versionutils.generate), ('Gen/VersionutilsCode.v', gen_versionutils.generate_code)]
-EQUIV_FILES = ['Proofs/C17.v']
+GEN = [('Gen/Versionutils.v', gen_versionutils.generate), ('Gen/VersionutilsCode.v', gen_versionutils.generate_code),
+       ('Gen/C17_Code.v', gen_versionutils.generate_code17)]
+EQUIV_FILES = ['Proofs/C17.v', 'Proofs/C17_Equiv.v']
 EXTRACT = 'Extract/C17_x.v'
 TRUSTED = ['packaging.version is a contract: an abstract type with parse (None = InvalidVersion, a ValueError), <=, == and .major; the theorems hold '
            'for every such structure. The clauses the model relies on (totality, transitivity, antisymmetry up to ==, < > != derived from <= and ==, '
